@@ -76,7 +76,9 @@ def meta(tier):
     return dict(bounds=dict(programs=len(PG.base_programs()), statement="every line of the template under test",
                             split_points="character positions inside literals and token boundaries/interiors" + (" (spread subset)" if q else " (all)"),
                             variants=["plain", "trailing comment", "comment line between parts", "blank line between parts", "';' join with the next statement", "indentation 0-5", "letter case of every letter outside literals symbolic"],
-                            symbolic="comment text, one lexeme hole, or the case of every letter of the statement"),
+                            multi_line="3-4 physical lines: two cuts inside a character literal, or one before and one or two inside it; comment / blank line after every continued line; comments kept or ignored",
+                            reader_kernel="k_join: 'a = <text>' for every text of <= %d characters over ' \" ! a ; -- statements of the ';' layout == statements on separate lines" % (6 if q else 7),
+                            symbolic="comment text, one lexeme hole, the case of every letter of the statement, or the whole text (kernel)"),
                 assumptions=["a split inside a character context uses a leading '&' and carries no trailing comment",
                              "splits that separate a label / construct name from its statement are excluded here (recorded finding of C12)",
                              "names differ from keywords/intrinsics"],
